@@ -1,5 +1,6 @@
 SPECIFICATION Spec
 CONSTANTS
+  Variant = "fixed"
   E = 0
   VPerO = 1
   MaxZ = 5
@@ -9,5 +10,6 @@ CONSTANTS
 INVARIANT TableSafe
 INVARIANT TargetLeLimit
 INVARIANT Monotone
+INVARIANT NoUnderflow
 INVARIANT Emit
 CHECK_DEADLOCK FALSE
